@@ -103,7 +103,38 @@ def run_history(ctx, case):
         ctx.obs["history_steps"] += 1
 
 
+def cross_script_case(ctx, case):
+    """two *different* scripts in one process: A defines table T, B only alters / indexes T.  B's outcome (it raises: T is not defined in
+    B) must be the same before and after A was parsed - by the same or by another parser object - and A's returned result must not be
+    touched by B.  Table names are unique per case, so earlier cases of this process cannot interfere with the reference."""
+    from simple_ddl_parser import DDLParser
+    a_ddl, b_ddl, args = case["a"], case["b"], case.get("args") or {}
+
+    def run_b():
+        try:
+            return ("ok", DDLParser(b_ddl).run(**args))
+        except Exception as e:
+            return ("exc", type(e).__name__, str(e)[:200])
+    ctx.evaluated(4)
+    before = run_b()
+    pa = DDLParser(a_ddl)
+    ra = pa.run(**args)
+    snap = copy.deepcopy(ra)
+    after = run_b()
+    ctx.obs["cross_script_histories"] += 1
+    if canon(before) != canon(after):
+        ctx.violation("depends_on_other_scripts_parsed_earlier", case, {"b_alone_first": short(before, 300), "b_after_a": short(after, 300)})
+    if ra != snap:
+        ctx.violation("returned_result_modified_later", case, {"modified_by": "run() of another script on another object",
+                                                               "diffs": [(q, short(x, 100), short(y, 100)) for q, x, y in ddiff(ra, snap)[:4]]})
+    again = pa.run(**args)
+    if canon(again) != canon(snap):
+        ctx.violation("depends_on_earlier_calls", case, {"step": "A again after B", "diffs": [(q, short(x, 100), short(y, 100)) for q, x, y in ddiff(again, snap)[:4]] if not isinstance(again, str) else None})
+
+
 def check_case(ctx, case):
+    if case.get("gen") == "cross_script":
+        return cross_script_case(ctx, case)
     if case.get("gen") in ("parse_from_file", "parser_settings"):
         # replay of the file entry point: parse a small file in an empty cwd under the fs monitor
         from simple_ddl_parser import parse_from_file
@@ -206,6 +237,15 @@ def run_shard(ctx):
         hist = [dict(c["run_kw"]), gen_args(rng), dict(c["run_kw"])]
         check_case(ctx, {"gen": "corpus", "ddl": c["ddl"], "ctor": c["init_kw"], "history": hist})
         ctx.obs["corpus_histories"] += 1
+    # (2b) cross-script histories (state shared between Output / parser objects of different scripts)
+    for j in range(ctx.budget(120, 3000)):
+        tn = "xs_%d_%d_%d" % (ctx.seed, ctx.shard, j)
+        sch = rng.choice(["", "s.", "Sa."])
+        a = "CREATE TABLE %s%s (a int, b int);\nCREATE TABLE other_%s (z int);\n" % (sch, tn, tn)
+        b = rng.choice(["ALTER TABLE %s%s ADD c int;\n", "CREATE INDEX ix_%s ON %s%s (a);\n".replace("ix_%s", "ix_" + tn), "ALTER TABLE %s%s ADD CONSTRAINT fk FOREIGN KEY (a) REFERENCES p (k);\n",
+                        "CREATE TABLE unrelated (q int);\nALTER TABLE %s%s DROP COLUMN b;\n"]) % (sch, tn)
+        args = {k: v for k, v in gen_args(rng).items() if k in ("output_mode", "group_by_type")}
+        check_case(ctx, {"gen": "cross_script", "a": a, "b": b, "args": args})
     # (3) parse_from_file must not modify its parser_settings argument
     from simple_ddl_parser import parse_from_file
     import shutil
